@@ -55,7 +55,8 @@ type runner struct {
 	recovers  []recoverRec // every Recover the recorded run started on a recoverable root
 
 	recStarted, recDone  uint64 // Recover calls started / finished (historical readers)
-	recoverWhileIndexing bool   // a Recover ran while the initial index run was unfinished
+	pslots               [4]*heldIter // held iterators of the main actor (C22)
+	recoverWhileIndexing bool         // a Recover ran while the initial index run was unfinished
 	elementless          bool   // a flattened trienode history had no index elements
 
 	// per root: intervals [t0,t1] (harness ticks, t1 == 0: still running) of the
@@ -468,6 +469,10 @@ func (rn *runner) doOp(op Op) *simcore.Violation {
 		return rn.read("M", *op.R, true)
 	case "hread":
 		return rn.hread("M", *op.R, false)
+	case "popen":
+		return rn.popen(op)
+	case "pdrain":
+		return rn.pdrain(op.T)
 	case "size":
 		return guard("size", func() { rn.w.db.Size() })
 	case "recover":
@@ -749,6 +754,13 @@ func (rn *runner) read(actor string, rd Read, certain bool) *simcore.Violation {
 		itErr   error
 		isIter  = rd.Kind >= 4
 	)
+	// tree-changing operations started by the time the iterator had been constructed
+	startedAtOpened := doneAtInv
+	markOpened := func() {
+		rn.mu.Lock()
+		startedAtOpened = rn.opStarted
+		rn.mu.Unlock()
+	}
 	v := guard("read", func() {
 		switch rd.Kind {
 		case 0, 1, 3:
@@ -835,6 +847,7 @@ func (rn *runner) read(actor string, rd Read, certain bool) *simcore.Violation {
 				next, fin = it.Next, it.Error
 				cur = func() ([]byte, []byte) { h := it.Hash(); return h[:], common.CopyBytes(it.Account()) }
 			}
+			markOpened()
 			for {
 				rn.gate(actor + ":next")
 				if !next() {
@@ -878,6 +891,7 @@ func (rn *runner) read(actor string, rd Read, certain bool) *simcore.Violation {
 				next, fin = it.Next, it.Error
 				cur = func() ([]byte, []byte) { h := it.Hash(); return h[:], common.CopyBytes(it.Slot()) }
 			}
+			markOpened()
 			for {
 				rn.gate(actor + ":next")
 				if !next() {
@@ -1030,7 +1044,12 @@ func (rn *runner) read(actor string, rd Read, certain bool) *simcore.Violation {
 		for i := 0; !bad && i < len(itGot); i++ {
 			bad = i >= len(itWant) || !eq(itGot[i][0], itWant[i][0]) || !eq(itGot[i][1], itWant[i][1])
 		}
-		if bad {
+		// Only the recorded race is excused: a flatten (+ flush) that overlapped the
+		// CONSTRUCTION of the iterator, between the capture of the disk layer's
+		// buffer key list and the creation of the key-value iterator. An iterator
+		// that was fully constructed before the tree changed works on immutable
+		// diff layers and a key-value snapshot: whatever it yields must be right.
+		if bad && startedAtOpened != doneAtInv {
 			key := "iterator-mixes-states-after-drop"
 			if simcore.IsKnown(key) || os.Getenv("PDB_ASSUME_KNOWN") != "" {
 				rn.res.KnownHit(key)
